@@ -516,6 +516,10 @@ class Spectrum(object):
         if sampling == self.__sampling: return
         self.__sampling = sampling
         self.__df = self.__sampling / float(self.__N)
+        # the Range object (created in the constructor) provides df and the
+        # frequency axes, so it must follow the sampling frequency
+        if getattr(self, '_range', None) is not None:
+            self._range.sampling = sampling
         self.modified = True
     sampling = property(fget=_getSampling, fset=_setSampling,
         doc="""Getter/Setter to sampling frequency. Updates the :attr:`df` automatically.""")
